@@ -15,6 +15,7 @@
    rest on the correspondence (every drop is a compared log line, data=0 in every compared snapshot) and the m_payloads
    monitor.  Statements only; proofs in proofs/PayloadSpec.v. *)
 From Cobweb Require Import Machine.
+Require Import Coq.Sorting.Permutation.
 From CobwebProofs Require Import RunnerInv OnceInv TicketInv PayloadSpec TopLevel.
 
 Theorem unheard_broadcast_dropped_at_once_partial : forall (P : program) w ty p, tbl_get ty (bc_tbl w) = [] ->
@@ -85,6 +86,14 @@ Example ex_runs : exists w', run ex_prog 300 = Ok w' /\ dataents w' = []
   /\ existsb (fun e => match e with EvAbort 102 _ _ => true | _ => false end) (log w') = true.
 Proof. eexists. split; [vm_compute; reflexivity|]. vm_compute. auto. Qed.
 
+(* every command that parked event data (system event, broadcast / entity-event / entity / despawn reaction) was set
+   up exactly once over the whole run, by its run or by the abort path; tickets of claims are pairwise distinct and are
+   exactly the tickets of the parked commands *)
+Theorem every_scheduled_reader_is_set_up_exactly_once : forall (P : program) (fuel : nat) (w' : world), run P fuel = Ok w' ->
+  Permutation (ptickets (g_prep w')) (ctickets (g_claim w')) /\ NoDup (ctickets (g_claim w')).
+Proof. exact every_parked_command_is_set_up_exactly_once. Qed.
+
+Print Assumptions every_scheduled_reader_is_set_up_exactly_once.
 Print Assumptions unheard_broadcast_dropped_at_once_partial.
 Print Assumptions unheard_entity_event_dropped_at_once_partial.
 Print Assumptions counter_starts_at_number_of_readers_partial.
